@@ -87,7 +87,9 @@ func VerifHarness_C06_Pattern_2() { verifC06Pattern(2) }
 // from concrete skeletons and symbolic values, cut at every position.
 func verifC06JSON(valLen int) {
 	v := verifLower("v", valLen)
-	num := []string{"5", "2.5", "-3"}[vsymChoice("num", 3)]
+	// integers beyond 2^53 must come out digit for digit (ids, nanosecond timestamps)
+	nums := []string{"5", "2.5", "-3", "9007199254740993", "9223372036854775807", "-9007199254740993"}
+	num := nums[vsymChoice("num", len(nums))]
 	doc := `{"k1":"` + v + `","k2":` + num + `,"k.3":true,"o":{"in":"x"},"n":null}`
 	cut := len(doc)
 	if vsymBool("truncated") {
